@@ -1,0 +1,124 @@
+//go:build verif
+// +build verif
+
+// Verification hooks (build tag `verif` only): the fast-sync loop of poolRoutine, one iteration at
+// a time, and the channels on which the pool talks to the reactor.
+
+package blockchain
+
+import (
+	"sort"
+
+	"github.com/dappledger/AnnChain/gemmill/go-wire"
+	gcmn "github.com/dappledger/AnnChain/gemmill/modules/go-common"
+	log "github.com/dappledger/AnnChain/gemmill/modules/go-log"
+	"github.com/dappledger/AnnChain/gemmill/types"
+	"go.uber.org/zap"
+)
+
+// VerifPool is the reactor's block pool.
+func (bcR *BlockchainReactor) VerifPool() *BlockPool { return bcR.pool }
+
+// VerifRequests is the channel on which the pool asks the reactor to send a block request.
+func (bcR *BlockchainReactor) VerifRequests() <-chan BlockRequest { return bcR.requestsCh }
+
+// VerifTimeouts is the channel on which the pool tells the reactor to drop a peer.
+func (bcR *BlockchainReactor) VerifTimeouts() <-chan string { return bcR.timeoutsCh }
+
+// VerifBlockResponseBytes is what a peer sends on the blockchain channel to serve a block.
+func VerifBlockResponseBytes(b *types.Block) []byte {
+	return wire.BinaryBytes(struct{ BlockchainMessage }{&bcBlockResponseMessage{Block: b}})
+}
+
+// VerifStatusResponseBytes is what a peer sends on the blockchain channel to report its height.
+func VerifStatusResponseBytes(height int64) []byte {
+	return wire.BinaryBytes(struct{ BlockchainMessage }{&bcStatusResponseMessage{height}})
+}
+
+// VerifDecodeBlockResponse decodes a block response the way Receive does; nil for anything else.
+func VerifDecodeBlockResponse(bz []byte) *types.Block {
+	_, msg, err := DecodeMessage(bz)
+	if err != nil {
+		return nil
+	}
+	if m, ok := msg.(*bcBlockResponseMessage); ok {
+		return m.Block
+	}
+	return nil
+}
+
+// VerifPeers lists the peers the pool knows, sorted.
+func (pool *BlockPool) VerifPeers() []string {
+	pool.mtx.Lock()
+	defer pool.mtx.Unlock()
+	var ids []string
+	for id := range pool.peers {
+		ids = append(ids, id)
+	}
+	sort.Strings(ids)
+	return ids
+}
+
+// VerifBlockAt is the block the requester for `height` holds.
+func (pool *BlockPool) VerifBlockAt(height int64) *types.Block {
+	pool.mtx.Lock()
+	r := pool.requesters[height]
+	pool.mtx.Unlock()
+	if r == nil {
+		return nil
+	}
+	return r.getBlock()
+}
+
+// VerifHeight is the next height the pool will hand out.
+func (pool *BlockPool) VerifHeight() int64 {
+	pool.mtx.Lock()
+	defer pool.mtx.Unlock()
+	return pool.height
+}
+
+// VerifHolder is the peer the request for `height` is assigned to and whether its block is there.
+func (pool *BlockPool) VerifHolder(height int64) (peerID string, have bool) {
+	pool.mtx.Lock()
+	r := pool.requesters[height]
+	pool.mtx.Unlock()
+	if r == nil {
+		return "", false
+	}
+	return r.getPeerID(), r.getBlock() != nil
+}
+
+// VerifTrySync runs ONE iteration of poolRoutine's SYNC_LOOP. The statements between the two
+// VERIF-COPY comments are a verbatim copy of that loop's body; the verification machinery compares
+// the two texts on every run.
+func (bcR *BlockchainReactor) VerifTrySync() {
+SYNC_LOOP:
+	for i := 0; i < 1; i++ {
+		// VERIF-COPY-BEGIN poolRoutine
+		// See if there are any blocks to sync.
+		first, second := bcR.pool.PeekTwoBlocks()
+		if first == nil || second == nil {
+			// We need both to sync the first block.
+			break SYNC_LOOP
+		}
+		firstParts := first.MakePartSet(bcR.config.GetInt("block_part_size")) // TODO: put part size in parts header?
+		firstPartsHeader := firstParts.Header()
+		// Finally, verify the first block using the second's commit
+		// NOTE: we can probably make this more efficient, but note that calling
+		// first.Hash() doesn't verify the tx contents, so MakePartSet() is
+		// currently necessary.
+
+		if err := bcR.blockVerifier(types.BlockID{Hash: first.Hash(), PartsHeader: firstPartsHeader}, first.Height, second.LastCommit); err != nil {
+			log.Error("error in validation", zap.String("error", err.Error()))
+			bcR.pool.RedoRequest(first.Height)
+			break SYNC_LOOP
+		} else {
+			bcR.pool.PopRequest()
+			if err := bcR.blockExecuter(first, firstParts, second.LastCommit); err != nil {
+				// TODO This is bad, are we zombie?
+				gcmn.PanicQ(gcmn.Fmt("Failed to process committed block (%d:%X): %v", first.Height, first.Hash(), err))
+			}
+		}
+		// VERIF-COPY-END
+	}
+}
